@@ -98,6 +98,20 @@ def programs(tier):
             p = Program(f"c10_fold_{ty}_{name.replace('-', '_')}")
             p.fn("main", [], UNIT, Block([println(Call(ty + "_to_string", e))], Unit))
             add(f"constfold:{name}:{ty}", p, expect="accept")
+    # ---- literal patterns: suffixed literals in patterns denote their value; out-of-range ones are rejected, also when the
+    # scrutinee's type is only known through inference (a call result)
+    for ty in BITS:
+        lo, hi = rng_of(ty)
+        TY = T(ty)
+        for name, v in (("max", hi), ("max+1", hi + 1), ("one", 1)):
+            for scrut in ("param", "call"):
+                p = Program(f"c10_pat_{ty}_{name.replace('+', 'p')}_{scrut}")
+                p.fn("ident", [("x", TY)], TY, Var("x"))
+                pat = PInt(v, ty); pat["suffix"] = True
+                sc = Var("x") if scrut == "param" else Call("ident", Var("x"))
+                p.fn("cls", [("x", TY)], STRING, Match(sc, [(pat, Str("hit")), (PInt(0, ty) if False else PWild, Str("other"))]))
+                p.fn("main", [], UNIT, Block([println(Call("cls", lit(min(v, hi), ty))), println(Call("cls", lit(0, ty))), println(Call("cls", lit(hi, ty)))], Unit))
+                add(f"pattern-literal:{name}:{ty}:{scrut}", p, expect="accept" if v <= hi else "reject")
     # literal zero divisor with a variable dividend
     p = Program("c10_div_literal_zero")
     p.fn("main", [], UNIT, Block([Let("x", Int(5)), println(Str("before")), println(show_int(Bin("/", Var("x"), Int(0)))), println(Str("after"))], Unit))
